@@ -145,7 +145,7 @@ void lu_driver(vf::Draw &d, vf::Ctx &ctx, size_t n, int lut, int pf, int arg, vo
   for (size_t i = 0; i < n; ++i)
     for (size_t j = 0; j < n; ++j) {
       ld e = std::fabs(LU[i * n + j] - Ap[i * n + j]), b = ceps * LUa[i * n + j] + tiny;
-      ctx.see_ratio((double)(e / b));
+      if (e <= b) ctx.see_ratio((double)(e / b));      // worst ratio among comparisons that passed
       if (!(e <= b)) { ctx.fail("%s: |L*U - P*A|(%zu,%zu) = %.4Lg exceeds %.3g*n*eps*(|L||U|)(%zu,%zu) = %.4Lg (n=%zu, (P*A)=%.9Lg, L*U=%.9Lg)", what, i, j, e, C_BOUND, i, j, b, n, Ap[i * n + j], LU[i * n + j]); return; }
     }
   // reconstruct(L,U[,P]) returns A within the same bound (row perm[i] of the result is row i of L*U)
@@ -153,7 +153,7 @@ void lu_driver(vf::Draw &d, vf::Ctx &ctx, size_t n, int lut, int pf, int arg, vo
     for (size_t j = 0; j < n; ++j) {
       ld got = (ld)REC[perm[i] * n + j], e = std::fabs(got - Aw[perm[i] * n + j]), b = ceps * LUa[i * n + j] + tiny;
       if (!std::isfinite((double)got)) { ctx.fail("reconstruct after %s: element (%zu,%zu) is not finite", what, perm[i], j); return; }
-      ctx.see_ratio((double)(e / b));
+      if (e <= b) ctx.see_ratio((double)(e / b));
       if (!(e <= b)) { ctx.fail("reconstruct after %s: element (%zu,%zu) = %.9Lg differs from A = %.9Lg by %.4Lg > %.3g*n*eps*(|L||U|) = %.4Lg", what, perm[i], j, got, Aw[perm[i] * n + j], e, C_BOUND, b); return; }
     }
 }
